@@ -11,7 +11,7 @@ import genlib as G
 
 VF = "routee-compass/src/plugin/input/default/vertex_rtree/plugin.rs"
 EF = "routee-compass/src/plugin/input/default/edge_rtree/edge_rtree_input_plugin.rs"
-OBLIGATIONS = ["nearest_vertex", "RTreePlugin::process", "EdgeRtreeInputPlugin::process"]
+OBLIGATIONS = ["nearest_vertex", "RTreePlugin::new", "RTreePlugin::process", "EdgeRtreeInputPlugin::process"]
 MUST_FAIL = ["vacuity_probe"]
 
 HEAD = """#![allow(unused_imports, unused_variables, dead_code, unused_mut, unused_parens, unused_assignments)]
@@ -65,6 +65,19 @@ impl RTreeV {
 }
 pub struct VertexRTree { pub rtree: RTreeV }
 pub struct RTreePlugin { pub vertex_rtree: VertexRTree, pub tolerance: Option<(Distance, DistanceUnit)> }
+// ---- RTreePlugin::new ----
+#[verifier::external_body] pub struct Path { _p: u8 }
+/// BASE_DISTANCE_UNIT (metres)
+pub uninterp spec fn base_distance_unit() -> DistanceUnit;
+#[verifier::external_body] pub fn verif_base_distance_unit() -> (r: DistanceUnit) ensures r == base_distance_unit() { unimplemented!() }
+/// rule R-io: reading the vertex file and bulk-loading the tree yields ANY tree or an error
+#[verifier::external_body] pub fn verif_load_vertex_tree(vertex_file: &Path) -> Result<VertexRTree, InputPluginError> { unimplemented!() }
+impl vstd::std_specs::convert::FromSpecImpl<InputPluginError> for PluginError {
+    open spec fn obeys_from_spec() -> bool { false }
+    open spec fn from_spec(v: InputPluginError) -> PluginError { arbitrary() }
+}
+pub enum PluginError { Input(InputPluginError), Other }
+impl From<InputPluginError> for PluginError { #[verifier::external_body] fn from(e: InputPluginError) -> PluginError { unimplemented!() } }
 /// the verdict of validate_tolerance (unit c16_edge_match proves of the real function: Ok only if the great-circle distance, in the tolerance's unit, is below the tolerance)
 pub uninterp spec fn vertex_within(src: CoordF32, dst: CoordF32, tol: Option<(Distance, DistanceUnit)>) -> bool;
 #[verifier::external_body] pub fn validate_tolerance(src: &CoordF32, dst: &CoordF32, tolerance: &Option<(Distance, DistanceUnit)>) -> (r: Result<(), InputPluginError>)
@@ -139,7 +152,20 @@ def build(x):
             (origin_coord(*old(query)) matches Some(c) && (nn_v(&self.vertex_rtree.rtree, c) matches Some(v) && !vertex_within(c, v.vertex.coordinate, self.tolerance))) ==> r is Err,
             (dest_coord(*old(query)) matches Some(Some(d)) && (nn_v(&self.vertex_rtree.rtree, d) matches Some(w) && !vertex_within(d, w.vertex.coordinate, self.tolerance))) ==> r is Err,
             (origin_coord(*old(query)) matches Some(c) && nn_v(&self.vertex_rtree.rtree, c) is None) ==> r is Err,""")
-    parts.append("impl RTreePlugin {\n" + vp.text + "\n}\n")
+    nw = x.fn(VF, "impl RTreePlugin :: fn new")
+    pat = re.compile(r"let vertices: Box<\[Vertex\]> =.*?let vertex_rtree = VertexRTree::new\(vertices\.to_vec\(\)\);", re.S)
+    nw.rewrite(pat.pattern, "let vertex_rtree = verif_load_vertex_tree(vertex_file)?;", 1, 1, rule="R-io", flags=re.S)
+    x.note("R-io", "RTreePlugin::new: reading the vertex file and `VertexRTree::new(..)` written verif_load_vertex_tree(vertex_file)? (any tree, or an error)")
+    nw.rewrite(r"BASE_DISTANCE_UNIT", "verif_base_distance_unit()", 0, 2, rule="R-path")
+    nw.name_return("r")
+    nw.add_spec("""        ensures
+            // C16: a configured tolerance is ALWAYS in force -- in the configured unit, in metres when no unit is given; without a tolerance value there is none
+            r matches Ok(p) ==> p.tolerance == (match (tolerance_distance, distance_unit) {
+                (Some(t), Some(u)) => Some((t, u)),
+                (Some(t), None) => Some((t, base_distance_unit())),
+                _ => None::<(Distance, DistanceUnit)>,
+            }),""")
+    parts.append("impl RTreePlugin {\n" + nw.text + "\n" + vp.text + "\n}\n")
     # ---- edge plugin ----
     ep = x.fn(EF, "impl InputPlugin for EdgeRtreeInputPlugin :: fn process")
     ep.rewrite(r"\A(\s*)fn ", r"\1pub fn ", 1, 1, rule="R2")
